@@ -7,11 +7,15 @@ COQ_PROPS = "Props/C12.v"
 THEOREMS = ["C12_history", "C12_fresh", "C12_no_ties", "C12_files", "C12_dtype"]
 ALLOWED_AXIOMS = []
 RULE = ("synthetic in-memory DICOM series (grids S<=4 x T<=3 x V<=3, 7 orientations x 2 slice directions, explicit or "
-        "guessed ordering keys, complete or with a dropped / duplicated / misfiled / pixel-less file or an irregular gap) "
-        "x random histories: adds in random order interleaved with shape / data / affine queries and conversions "
-        "(8 voxel orders, embed on/off, to_nifti_wrapper), ending in one conversion; the result is compared byte for "
-        "byte with a fresh stack given the accepted files in another random order.  Non-trivial: at least two accepted "
-        "files and at least one query or conversion before the final one")
+        "guessed ordering keys, complete or with a dropped / duplicated / misfiled / pixel-less file or an irregular gap; "
+        "per-file BitsStored / PixelRepresentation / pixel range / AcquisitionTime presence varied; two or three "
+        "different RepetitionTime values (incl. pairs colliding in an 8-slot hash table: 2000/3000, 1000/9000) and mixed "
+        "ROW / COL / absent phase directions across files) x random histories: adds in random order interleaved with "
+        "shape / data / affine queries and conversions (8 voxel orders, embed on/off, to_nifti_wrapper), ending in one "
+        "conversion; the result is compared byte for byte with fresh stacks given the accepted files in other orders "
+        "(1 order; 6 orders, thorough all 24 permutations, for four-file stacks and stacks with several TR / phase "
+        "values); pixdim[4], the dim_info phase code and the dtype of every converted image are also compared inside "
+        "Coq.  Non-trivial: at least two accepted files and at least one query or conversion before the final one")
 TRUSTED_BASE = [
     "nibabel DicomWrapper (slice_indicator, affine) and dcmstack.extract.default_extractor are contracts: the per-file "
     "abstraction given to the model is read from them (props/stacklib.abstract_file)",
@@ -66,8 +70,18 @@ def gen_cases(rng, tier):
             cfg['T'] = max(cfg['T'], 2)
         if defect == 'gap' and cfg['S'] < 3:
             cfg['S'] = rng.choice([3, 4])
+        small = rng.random() < 0.2
+        if small:
+            # four files, every add order (thorough) / six add orders (quick) against the history
+            cfg['S'], cfg['T'] = rng.choice([(2, 2), (4, 1), (1, 4)] if cfg['mode'] != 'none' else [(4, 1)])
+            cfg['V'] = 1
+            if cfg['mode'] == 'vec':
+                cfg['T'] = 1
+                cfg['S'] = 4
         files = L.grid_from_config(rng, cfg)
         attrs = L.vary_attrs(rng, cfg, files)
+        hdr = L.vary_header_sets(rng, cfg, files) if (small or rng.random() < 0.4) and \
+            cfg['tagrules'].get('RepetitionTime') is None else {}
         files, note = L.apply_defect(rng, cfg, files, defect)
         order = L.add_order(rng, files)
         ops = []
@@ -81,8 +95,10 @@ def gen_cases(rng, tier):
         final = ['nifti', rng.choice(L.VOXEL_ORDERS), rng.random() < 0.6] if rng.random() < 0.85 else ['wrapper', rng.choice(L.VOXEL_ORDERS)]
         ops.append(final)
         note['attrs'] = attrs
+        note['hdr'] = hdr
         case = {'kind': '%s/%s' % (cfg['mode'], defect), 'note': note, 'dims': [cfg['S'], cfg['T'], cfg['V']],
-                'orient': cfg['orient'], 'direction': cfg['direction'], 'fresh_seed': rng.randrange(1 << 30)}
+                'orient': cfg['orient'], 'direction': cfg['direction'], 'fresh_seed': rng.randrange(1 << 30),
+                'nfresh': (24 if tier != 'quick' else 6) if (small or hdr) else 1}
         case.update(L.case_header(cfg))
         case['files'] = files
         case['ops'] = ops
@@ -98,22 +114,39 @@ def run_impl(case):
     r, obs = L.run_history(dcmstack, case)
     final = case['ops'][-1]
     hist = None if obs['ops'][-1]['r'] != 'ok' else L.nifti_parts(r.last)
-    # the fresh stack: the accepted files in another order, then only the final conversion
+    # fresh stacks: the accepted files in other orders (all permutations of up to four files when asked for),
+    # then only the final conversion
+    import itertools
     acc = list(r.accepted)
-    random.Random(case.get('fresh_seed', 0)).shuffle(acc)
-    fcase = dict(case)
-    fcase['ops'] = [['add', i] for i in acc] + [final]
-    fr = L.Runner(dcmstack, fcase)
-    fobs = [fr.apply(op) for op in fcase['ops']]
-    refused = [o['r'] for o in fobs[:-1] if o['r'] != 'ok']
-    fresh = None if fobs[-1]['r'] != 'ok' else L.nifti_parts(fr.last)
-    obs['fresh'] = {'order': acc, 'refused': refused, 'r': fobs[-1]['r']}
-    if hist is not None and fresh is not None:
-        obs['diff'] = [k for k in PART_KEYS + ['bytes'] if hist[k] != fresh[k]]
-        obs['same'] = not obs['diff']
+    nf = case.get('nfresh', 1)
+    rng = random.Random(case.get('fresh_seed', 0))
+    if nf >= 24 and len(acc) <= 4:
+        orders = [list(p) for p in itertools.permutations(acc)]
     else:
-        obs['diff'] = []
-        obs['same'] = (hist is None) == (fresh is None) and obs['ops'][-1]['r'] == fobs[-1]['r']
+        orders = []
+        for _ in range(nf):
+            o = list(acc)
+            rng.shuffle(o)
+            orders.append(o)
+    diff, refused, rs = set(), [], set()
+    same = True
+    for o in orders:
+        fcase = dict(case)
+        fcase['ops'] = [['add', i] for i in o] + [final]
+        fr = L.Runner(dcmstack, fcase)
+        fobs = [fr.apply(op) for op in fcase['ops']]
+        refused += [x['r'] for x in fobs[:-1] if x['r'] != 'ok']
+        rs.add(fobs[-1]['r'])
+        fresh = None if fobs[-1]['r'] != 'ok' else L.nifti_parts(fr.last)
+        if hist is not None and fresh is not None:
+            d = [k for k in PART_KEYS + ['bytes'] if hist[k] != fresh[k]]
+            diff.update(d)
+            same = same and not d
+        else:
+            same = same and (hist is None) == (fresh is None) and obs['ops'][-1]['r'] == fobs[-1]['r']
+    obs['fresh'] = {'orders': len(orders), 'refused': refused, 'r': sorted(rs)}
+    obs['diff'] = sorted(diff)
+    obs['same'] = same
     return obs
 
 
@@ -140,8 +173,8 @@ def oracle(case, obs):
     if obs['same']:
         return None
     h, f = obs['ops'][-1]['r'], obs['fresh']['r']
-    if h != f:
-        return 'final conversion: history -> %s, fresh stack -> %s' % (h, f)
+    if f != [h]:
+        return 'final conversion: history -> %s, fresh stacks -> %s' % (h, ','.join(f))
     return 'final conversion differs from a fresh stack in: %s' % ','.join(obs['diff'])
 
 
